@@ -35,10 +35,14 @@ structure Ser where
   /-- value (index) of every preference except `indentSpecificities` -/
   prefs : List Nat
   indentSpec : Bool
-  /-- `CSSSerializer._selectors` (serialize.py:336) -/
-  selectors : List SelRec
-  /-- `CSSSerializer._selectorlevel` (serialize.py:337) -/
-  selLevel : Nat
+  deriving DecidableEq, Repr, Inhabited
+
+/-- a `CSSParser` object: nothing in it changes after `__init__` / `setFetcher` (parse.py:58-66) -/
+structure Parser where
+  /-- `self.__parseRaising` -/
+  raising : Bool
+  /-- `self._validate`: the fallback of the per-call `validate` argument -/
+  validate : Bool
   deriving DecidableEq, Repr, Inhabited
 
 structure G extends PG where
@@ -46,6 +50,8 @@ structure G extends PG where
   /-- next fresh serializer identity -/
   nextSer : Nat
   profiles : List Nat
+  /-- the `CSSParser` objects that are alive in the process (no library call writes one) -/
+  parsers : List Parser
   deriving DecidableEq, Repr, Inhabited
 
 inductive Err
@@ -72,14 +78,21 @@ inductive FetchRes
 inductive Input | str | bytesOk | bytesBad
   deriving DecidableEq, Repr, Inhabited
 
-/-- a `CSSParser` object: nothing in it changes after `__init__` (parse.py:58-66) -/
-structure Parser where
-  /-- `self.__parseRaising` -/
-  raising : Bool
+/-- `CSSParser(raiseExceptions=x, validate=v)`: `if raiseExceptions: … = raiseExceptions else: … = False`
+(parse.py:58-62), `self._validate = validate` (:67) -/
+def Parser.new (raiseExceptions : Option Bool) (validate : Bool := true) : Parser :=
+  ⟨raiseExceptions.getD false, validate⟩
+
+/-- which parser a call is made on: an object that lives on in the process, or one that is created for this call
+only (`cssutils.parseString(…)` = `CSSParser().parseString(…)`, __init__.py:163-168; csscombine's parser) -/
+inductive PRef
+  | obj (i : Nat)
+  | fresh (p : Parser)
   deriving DecidableEq, Repr, Inhabited
 
-/-- `CSSParser(raiseExceptions=x)`: `if raiseExceptions: … = raiseExceptions else: … = False` (parse.py:58-62) -/
-def Parser.new (raiseExceptions : Option Bool) : Parser := ⟨raiseExceptions.getD false⟩
+def G.parser (g : G) : PRef → Parser
+  | .obj i => g.parsers[i]?.getD ⟨false, true⟩
+  | .fresh p => p
 
 inductive Step
   /-- `cssutils.log.<level>(msg, neverraise=never)`: raises iff raising mode and not `never` -/
@@ -94,10 +107,12 @@ inductive Step
   | setIndent (b : Bool)                    -- cssutils.ser.prefs.indentSpecificities = b
   | newSer                                  -- cssutils.setSerializer(CSSSerializer())
   | setProfiles (l : List Nat)              -- add/removeProfile with the resulting list of names
-  | parseString (p : Parser) (inp : Input) (body : List Step)
-  | parseStyle (p : Parser) (inp : Input) (body : List Step)
-  | parseFile (p : Parser) (found : Bool) (inp : Input) (body : List Step)
-  | parseUrl (p : Parser) (inner : List Step) (res : FetchRes) (inp : Input) (body : List Step)
+  | newParser (p : Parser)                  -- a `CSSParser(…)` object the user keeps
+  /-- the four entry points; `v` is the per-call `validate` argument (`none` = not given: the parser's own) -/
+  | parseString (p : PRef) (v : Option Bool) (inp : Input) (body : List Step)
+  | parseStyle (p : PRef) (v : Option Bool) (inp : Input) (body : List Step)
+  | parseFile (p : PRef) (v : Option Bool) (found : Bool) (inp : Input) (body : List Step)
+  | parseUrl (p : PRef) (v : Option Bool) (inner : List Step) (res : FetchRes) (inp : Input) (body : List Step)
   /-- any DOM call outside a parser (constructor with text, `cssText = …`, `insertRule` …): its body runs in the
   global mode -/
   | direct (body : List Step)
@@ -114,6 +129,7 @@ inductive Obs
   | levels (l : List Nat)          -- indentation level of each serialised style rule
   | pp (o : Out)                   -- result of a production parser call
   | none                           -- an entry point returned None (parseUrl without content)
+  | validating (b : Bool)          -- the `validating` flag of the sheet / declaration an entry point returned
   deriving Repr, DecidableEq
 
 structure R where
@@ -148,19 +164,17 @@ def memoScan (r : SelRec) (all : List SelRec) : List SelRec → Nat → List Sel
     else if lvl > 0 then memoScan r all rest (lvl - 1)                       -- :782-783
     else memoScan r all rest lvl
 
-/-- one `do_CSSStyleRule`: new serializer state; the rule is indented by the new `selLevel` (:815) -/
-def memoStep (s : Ser) (r : SelRec) : Ser :=
-  if s.indentSpec then
-    let x := memoScan r s.selectors s.selectors s.selLevel
-    { s with selectors := x.1, selLevel := x.2 }
-  else s
+/-- one `do_CSSStyleRule` while a sheet is serialised: the list of selector lists seen so far in THIS sheet and
+the level; the rule is indented by the new level (:815) -/
+def memoStep (indent : Bool) (m : List SelRec × Nat) (r : SelRec) : List SelRec × Nat :=
+  if indent then memoScan r m.1 m.1 m.2 else m
 
-def serializeRules : Ser → List SelRec → Ser × List Nat
-  | s, [] => (s, [])
-  | s, r :: rs =>
-    let s1 := memoStep s r
-    let x := serializeRules s1 rs
-    (x.1, s1.selLevel :: x.2)
+/-- `do_CSSStyleSheet` (after the fix "indentSpecificities relates the rules of one sheet only"): starts from an
+empty list and level 0 and puts the outer values back when it is done, so nothing of the serializer changes;
+result: the indentation level of every style rule of the sheet -/
+def sheetLevels (indent : Bool) : List SelRec × Nat → List SelRec → List Nat
+  | _, [] => []
+  | m, r :: rs => (memoStep indent m r).2 :: sheetLevels indent (memoStep indent m r) rs
 
 /-! ## the interpreter -/
 
@@ -231,34 +245,39 @@ def runStep : Step → G → R
   | .setPref i v, g => ⟨.ok (), { g with ser := { g.ser with prefs := setAt g.ser.prefs i v } }, []⟩
   | .setIndent b, g => ⟨.ok (), { g with ser := { g.ser with indentSpec := b } }, []⟩
   | .newSer, g =>
-    ⟨.ok (), { g with ser := ⟨g.nextSer, freshPrefs, false, [], 0⟩, nextSer := g.nextSer + 1 }, []⟩
+    ⟨.ok (), { g with ser := ⟨g.nextSer, freshPrefs, false⟩, nextSer := g.nextSer + 1 }, []⟩
   | .setProfiles l, g => ⟨.ok (), { g with profiles := l }, []⟩
-  | .parseString p inp body, g =>                            -- parse.py:133-153
-    withParseSetting p (fun g => decode inp g fun g => runSteps body g) g
-  | .parseStyle p inp body, g =>                             -- parse.py:97-103
-    withParseSetting p (fun g => decode inp g fun g => runSteps body g) g
-  | .parseFile p found inp body, g =>                        -- parse.py:178-195
+  | .newParser p, g => ⟨.ok (), { g with parsers := g.parsers ++ [p] }, []⟩
+  -- in all four: `if validate is None: validate = self._validate` (parse.py:101-102,139-140) — a local variable
+  | .parseString p v inp body, g =>                          -- parse.py:133-153
+    withParseSetting (g.parser p) (fun g1 => decode inp g1 fun g1 =>
+      seqR (runSteps body g1) fun g2 => ⟨.ok (), g2, [.validating (v.getD (g.parser p).validate)]⟩) g
+  | .parseStyle p v inp body, g =>                           -- parse.py:97-103
+    withParseSetting (g.parser p) (fun g1 => decode inp g1 fun g1 =>
+      seqR (runSteps body g1) fun g2 => ⟨.ok (), g2, [.validating (v.getD (g.parser p).validate)]⟩) g
+  | .parseFile p v found inp body, g =>                      -- parse.py:178-195
     if !found then ⟨.error .os, g, []⟩                       -- :183 open(filename, 'rb') outside the `with`
-    else withParseSetting p (fun g => decode inp g fun g => runSteps body g) g
-  | .parseUrl p inner res inp body, g =>                     -- parse.py:213-229
+    else withParseSetting (g.parser p) (fun g1 => decode inp g1 fun g1 =>
+      seqR (runSteps body g1) fun g2 => ⟨.ok (), g2, [.validating (v.getD (g.parser p).validate)]⟩) g
+  | .parseUrl p v inner res inp body, g =>                   -- parse.py:213-229
     -- `_readUrl` runs BEFORE `__parseSetting`: the fetcher sees the global mode and its exceptions propagate
     seqR ⟨.ok (), g, [.seen g.raising]⟩ fun g =>
     seqR (runSteps inner g) fun g =>
     match res with
     | .raises e => ⟨.error e, g, []⟩
     | .nothing => ⟨.ok (), g, [.none]⟩                       -- :219 `if text is not None` fails: returns None
-    | .content => withParseSetting p (fun g => decode inp g fun g => runSteps body g) g
+    | .content => withParseSetting (g.parser p) (fun g1 => decode inp g1 fun g1 =>
+        seqR (runSteps body g1) fun g2 => ⟨.ok (), g2, [.validating (v.getD (g.parser p).validate)]⟩) g
   | .direct body, g => runSteps body g
   | .combine src post serBody, g =>                          -- script.py:346-373
     seqR (runStep src g) fun g =>                            -- :353-360 (exceptions leave before the swap)
     seqR (runSteps post g) fun g =>                          -- :362-363 resolveImports, `result.encoding = …`
     let oldser := g.ser                                      -- :365
-    let g1 := { g with ser := ⟨g.nextSer, freshPrefs, false, [], 0⟩, nextSer := g.nextSer + 1 }   -- :366-369
+    let g1 := { g with ser := ⟨g.nextSer, freshPrefs, false⟩, nextSer := g.nextSer + 1 }   -- :366-369
     seqR (runSteps serBody g1) fun g2 =>                     -- :370 result.cssText
     ⟨.ok (), { g2 with ser := oldser }, []⟩                  -- :371 (not reached when :370 raises)
   | .serialize rules, g =>
-    let x := serializeRules g.ser rules
-    ⟨.ok (), { g with ser := x.1 }, [.levels x.2]⟩
+    ⟨.ok (), g, [.levels (sheetLevels g.ser.indentSpec ([], 0) rules)]⟩
 def runSteps : List Step → G → R
   | [], g => ⟨.ok (), g, []⟩
   | s :: ss, g => seqR (runStep s g) fun g => runSteps ss g
